@@ -58,6 +58,12 @@ def rand_prog(rng: random.Random, c: dict, level: int, nb: int, own_bus: int, sy
                     opts['parent'] = '00000000-0000-7000-8000-%012x' % rng.randrange(1 << 40)
                 elif rng.random() < c.get('p_prebuilt', 0.06):
                     opts['prebuilt'] = True  # the object was constructed before the program started and is handed to this handler
+                if rng.random() < c.get('p_unenc', 0.04):
+                    # a payload field holding a live object / non-UTF-8 bytes: legal for an event, no JSON form
+                    opts['payload'] = {'conn': rng.choice([{'$obj': 1}, {'$bytes': 'fffe80'}])}
+                if mode == 'await' and rng.random() < c.get('p_acc', 0.05):
+                    mode = 'acc'
+                    opts['acc_timeout'] = rng.choice([0.02, 0.05, 0.2])
                 prog.append(['disp', rng.randint(level + 1, c['levels'] - 1), tb, mode, pre, opts])
         elif x < 0.80 + c['p_bus']:
             prog.append(['bus'])
@@ -75,6 +81,9 @@ def rand_prog(rng: random.Random, c: dict, level: int, nb: int, own_bus: int, sy
         elif x < 0.80 + c['p_bus'] + c['p_raise'] + c['p_retexc'] + c['p_redisp'] + c['p_spawn']:
             if not sync and not wild and level < c['levels'] - 1:
                 sub = [['sleep', rng.choice(DELAYS)], ['disp', rng.randint(level + 1, c['levels'] - 1), rng.randrange(nb), rng.choice(['fire', 'await']), None, {}]]
+                if rng.random() < 0.3:
+                    # a flush task: fire some work, then wait for the bus to be idle (long after the handler that created it ended)
+                    sub = [['sleep', rng.choice([0.3, 1.0])], ['disp', rng.randint(level + 1, c['levels'] - 1), own_bus, 'fire', None, {}], ['idle', own_bus, rng.choice([None, 5.0])]]
                 prog.append(['spawn', sub])
     if rng.random() < c.get('p_ret', 0.15) and not any(op[0] in ('raise', 'retexc', 'ret') for op in prog):
         # handlers return lists / dicts / numbers (the accessors flatten and merge them), not only strings
@@ -89,6 +98,10 @@ def random_scenario(rng: random.Random, c: dict) -> dict:
     for i in range(nb):
         buses.append({'name': f'B{i}' if rng.random() > 0.04 else f'_B{i}', 'par': rng.random() < c['p_par'], 'lazy': rng.random() < c['p_lazy'], 'sub': rng.random() < 0.3,
                       'hist': (rng.choice(hist) if isinstance(hist, (list, tuple)) else hist)})
+    if nb > 1 and rng.random() < c.get('p_same_name', 0.06):
+        # two (or all) buses created under one requested name: the constructor warns and renames the later ones, all stay usable
+        for k in rng.sample(range(nb), rng.randint(2, nb)):
+            buses[k]['name'] = 'Same'
     fwd = []
     if nb > 1 and rng.random() < c['p_fwd']:
         seen = set()
@@ -132,6 +145,8 @@ def random_scenario(rng: random.Random, c: dict) -> dict:
                     opts['naive'] = rng.random() < 0.3
                 if rng.random() < c.get('p_rtype', 0.1):
                     opts['rtype'] = rng.choice(['str', 'int', 'list', 'dict'])
+                if rng.random() < c.get('p_unenc', 0.04):
+                    opts['payload'] = {'conn': rng.choice([{'$obj': 1}, {'$bytes': 'fffe80'}])}
                 ops.append(['disp', rng.randint(0, max(0, c['levels'] - 2)), rng.randrange(nb), 'await' if rng.random() < c['actor_await'] else 'fire', rng.choice(DELAYS), opts])
                 nd += 1
         for k in range(nd):
@@ -317,7 +332,12 @@ def stop_derive(sc: dict, t: float, rng: random.Random):
     timeout = rng.choice([None, None, 0, 0.05, 0.3])
     s1 = sc
     clear = rng.random() < 0.3  # stop(clear=True): also drops the bus's history and handlers
-    s1['actors'] = s1['actors'] + [[['sleep', t], ['stop', b, timeout, clear]]]
+    after = []
+    if rng.random() < 0.35:
+        # tear-down code that, some time after stop() returned, also waits for the (stopped) bus to be idle: bounded, and it must not
+        # bring the bus back to life
+        after = [['sleep', rng.choice([0.02, 0.2, 0.5])], ['idle', b, rng.choice([0.05, 0.5])]]
+    s1['actors'] = s1['actors'] + [[['sleep', t], ['stop', b, timeout, clear]] + after]
     x = rng.random()
     if x < 0.15:  # a second, concurrent or slightly later stop() of the same bus
         s1['actors'] = s1['actors'] + [[['sleep', t + rng.choice([0.0, 0.0, 0.02, 0.2])], ['stop', b, rng.choice([None, 0, 0.05]), rng.random() < 0.3]]]
@@ -344,6 +364,43 @@ def cancel_derive(sc: dict, t: float, rng: random.Random):
         sc2 = copy.deepcopy(sc)
         sc2['actors'] = copy.deepcopy(base_actors) + [[['sleep', t], ['cancel_runloop', b, wait, rng.choice([3, 5, 8, 12, 20])]]]
         yield sc2
+
+
+def retry_handler_base(rng: random.Random, i: int) -> dict:
+    """Event handlers decorated with @retry(semaphore_limit=1) that share a named semaphore - with each other (sibling handlers on a
+    parallel bus), with a handler of a child event, and with plain code occupying the slot: a handler whose timeout fires while it
+    still waits for its slot never runs its body."""
+    nb = rng.choice([1, 2])
+    buses = [{'name': f'B{k}', 'par': (k == 0 and rng.random() < 0.7), 'lazy': False, 'hist': None} for k in range(nb)]
+    hs = []
+    shape = rng.choice(['siblings', 'occupied', 'nested'])
+    if shape == 'siblings':
+        buses[0]['par'] = True
+        for _ in range(rng.randint(2, 3)):
+            hs.append({'bus': 0, 'pat': 0, 'kind': 'async', 'prog': [['sleep', rng.choice([0.2, 0.3])]], 'retry': {'name': 'a', 'limit': 1}})
+        hs.append({'bus': 0, 'pat': 0, 'kind': 'async', 'prog': [['sleep', 0.05]]})
+        actors = [[['disp', 0, 0, 'await', 0, {}]]]
+    elif shape == 'occupied':
+        hs.append({'bus': 0, 'pat': 0, 'kind': 'async', 'prog': [['sleep', 0.1], ['disp', 2, nb - 1, 'fire', None, {}]], 'retry': {'name': 'a', 'limit': 1}})
+        hs.append({'bus': 0, 'pat': 0, 'kind': rng.choice(['async', 'sync']), 'prog': []})
+        hs.append({'bus': nb - 1, 'pat': 2, 'kind': 'async', 'prog': [['sleep', 0.05]]})
+        actors = [[['sleep', 0.05], ['disp', 0, 0, 'await', 0, {}]], [['occupy', 'a', rng.choice([0.3, 0.6])]]]
+    else:
+        hs.append({'bus': 0, 'pat': 0, 'kind': 'async', 'prog': [['sleep', 0.05], ['disp', 1, nb - 1, 'await', None, {}], ['sleep', 0.05]]})
+        hs.append({'bus': nb - 1, 'pat': 1, 'kind': 'async', 'prog': [['sleep', 0.1]], 'retry': {'name': 'a', 'limit': 1}})
+        hs.append({'bus': nb - 1, 'pat': 1, 'kind': 'async', 'prog': [['sleep', 0.05]]})
+        actors = [[['disp', 0, 0, 'await', 0, {}]], [['sleep', 0.02], ['occupy', 'a', rng.choice([0.3, 0.6])]]]
+    actors.append([['sleep', 1.5], ['disp', 2, 0, 'await', 0, {}]])
+    hs.append({'bus': 0, 'pat': 2, 'kind': 'async', 'prog': [['sleep', 0.05]], 'retry': {'name': 'a', 'limit': 1}})
+    return {'seed': rng.randrange(1 << 30), 'buses': buses, 'fwd': [], 'handlers': hs, 'actors': actors}
+
+
+def retry_handler_derive(sc: dict, t: float, rng: random.Random):
+    for a in sc['actors']:
+        for op in a:
+            if op[0] == 'disp' and op[1] == 0:
+                op[5] = {'timeout': t}
+    yield sc
 
 
 def walcancel_base(rng: random.Random, i: int) -> dict:
@@ -724,7 +781,7 @@ def rand_payload(rng: random.Random, depth: int = 0):
 
 
 def wal_scenario(rng: random.Random, i: int) -> dict:
-    c = cfg(nb=(1, 3), p_fwd=0.4, levels=4, p_idle=0.0, p_par=0.15, p_lazy=0.2, jitter=False)
+    c = cfg(nb=(1, 3), p_fwd=0.4, levels=4, p_idle=0.0, p_par=0.15, p_lazy=0.2, jitter=False, p_unenc=0.0)  # (payloads are set below)
     sc = random_scenario(rng, c)
     kinds = [True, True, True, 'nested', 'devfull', 'parentfile', 'isdir', None]
     any_wal = False
@@ -932,7 +989,7 @@ def shapes_scenario(rng: random.Random, i: int) -> dict:
         b = rng.randrange(nb)
         key = f'k{i}'
         hs.append({'bus': b, 'pat': 0, 'kind': 'async', 'prog': [['disp', 2, rng.randrange(nb), rng.choice(['await', 'fire', 'later', 'await2']), rng.choice([None, 0]), {'share': key}], ['sleep', rng.choice(SHORT)]]})
-        hs.append({'bus': b, 'pat': 0, 'kind': 'async', 'prog': [['sleep', rng.choice([0, 0, 0.001, 0.05])], ['await_shared', key], ['disp', 3, b, 'fire', None, {}]]})
+        hs.append({'bus': b, 'pat': 0, 'kind': 'async', 'prog': [['sleep', rng.choice([0, 0, 0.001, 0.05])], ['await_shared', key], ['disp', 3, b, 'fire', None, {}]] + ([['ret_shared', key]] if rng.random() < 0.4 else [])})
         if rng.random() < 0.4:
             hs.append({'bus': rng.randrange(nb), 'pat': 1, 'kind': 'async', 'prog': [['sleep', rng.choice(SHORT)], ['await_shared', key]]})
     # a later handler of the same event passes the children its siblings dispatched on to another bus (the same child object
@@ -954,7 +1011,7 @@ def shapes_scenario(rng: random.Random, i: int) -> dict:
     # a handler awaiting an event that top-level code dispatched (not part of the handler's own tree)
     if sc['actors'] and rng.random() < 0.5:
         a = rng.randrange(len(sc['actors']))
-        hs.append({'bus': rng.randrange(nb), 'pat': rng.choice([0, 1]), 'kind': 'async', 'prog': [['sleep', rng.choice([0, 0, 0.001, 0.05])], ['await_actor', a, rng.randrange(3)]]})
+        hs.append({'bus': rng.randrange(nb), 'pat': rng.choice([0, 1]), 'kind': 'async', 'prog': [['sleep', rng.choice([0, 0, 0.001, 0.05])], ['await_actor', a, rng.randrange(3)]] + ([['ret_actor', a, rng.randrange(3)]] if rng.random() < 0.4 else [])})
     # several handlers of one event returning lists / dicts, then every accessor is called on the completed event
     if rng.random() < 0.5:
         b = rng.randrange(nb)
